@@ -144,6 +144,40 @@ class FileRefs(ast.NodeVisitor):
             self.from_imports.append((mod, a.name, node.lineno, self.guard > 0))
             self.alias[a.asname or a.name] = mod + "." + a.name
 
+    # --- light local type inference: names bound only to results of numpy array constructors
+    def _is_maker_call(self, v):
+        if not isinstance(v, ast.Call):
+            return False
+        f = v.func
+        return (isinstance(f, ast.Attribute) and isinstance(f.value, ast.Name) and f.value.id in self.alias
+                and self.alias[f.value.id] == "numpy" and f.attr in ARRAY_MAKERS)
+
+    def visit_FunctionDef(self, node):
+        binds = {}
+        for n in ast.walk(node):
+            targets = []
+            if isinstance(n, ast.Assign):
+                targets = [(t, n.value) for t in n.targets]
+            elif isinstance(n, (ast.AugAssign, ast.AnnAssign)) and n.value is not None:
+                targets = [(n.target, n.value)]
+            elif isinstance(n, (ast.For, ast.comprehension)):
+                targets = [(n.target, None)]
+            elif isinstance(n, ast.With):
+                targets = [(i.optional_vars, None) for i in n.items if i.optional_vars is not None]
+            for t, v in targets:
+                for nm in ast.walk(t):
+                    if isinstance(nm, ast.Name):
+                        ok = isinstance(t, ast.Name) and v is not None and self._is_maker_call(v)
+                        binds.setdefault(nm.id, []).append((getattr(n, "lineno", getattr(t, "lineno", 0)), ok))
+        arrays = {k: min(l for l, _ in v) for k, v in binds.items() if v and all(ok for _, ok in v)}
+        for n in ast.walk(node):
+            if isinstance(n, ast.Attribute) and isinstance(n.value, ast.Name) and n.value.id in arrays \
+                    and n.lineno > arrays[n.value.id] and isinstance(n.ctx, ast.Load):
+                self.refs.append(("numpy.ndarray", [n.attr], n.lineno, self.guard > 0))
+        self.generic_visit(node)
+
+    visit_AsyncFunctionDef = visit_FunctionDef
+
     # --- references
     def visit_Attribute(self, node):
         # `<numpy array constructor>(...).attr`: the attribute must exist on numpy.ndarray
